@@ -41,7 +41,7 @@ def wordClash : List Token → Bool
 def endOk (ts : List Token) : Bool :=
   match ts.getLast? with
   | some (.whitespace _) => false
-  | some (.unknown s) => trimEndStr s == s
+  | some (.unknown s) => trimEndStr s == s && !s.isEmpty
   | _ => true
 
 theorem sepRec_stable (ts : List Token) (h : wordClash ts = false) : sepRec ts = ts := by
@@ -287,8 +287,10 @@ theorem trimEnd_raw (ts : List Token) (h : endOk ts = true) : trimEnd (ts.flatMa
       | whitespace n => simp at h
       | unknown s =>
         simp only [hl']
-        have hs : trimEndStr s = s := by simpa using h
-        rw [hs]
+        have hs : trimEndStr s = s ∧ s ≠ [] := by simpa using h
+        rw [hs.1]
+        have hne : s.isEmpty = false := by simpa using hs.2
+        simp only [hne, Bool.false_eq_true, if_false]
         obtain ⟨ys, hys⟩ := List.getLast?_eq_some_iff.1 hl'
         rw [hys]; simp
       | _ => simp only [hl']
@@ -299,8 +301,8 @@ theorem trimEnd_raw (ts : List Token) (h : endOk ts = true) : trimEnd (ts.flatMa
       | _ => simp only [hl']
 
 /-- the syntactic sufficient condition: no comparison operators next to (or one blank away from)
-    each other, no `GO <blank> TO|SUB`, no two word-like tokens adjacent, no trailing blank run or
-    trailing white space in the remark text ⟹ the four post-passes rebuild exactly `ts` -/
+    each other, no `GO <blank> TO|SUB`, no two word-like tokens adjacent, no trailing blank run, no
+    trailing white space in (and no empty) remark text ⟹ the four post-passes rebuild exactly `ts` -/
 theorem postPasses_stable (ts : List Token) (h1 : tripleClash ts = false) (h2 : doubleClash ts = false)
     (h3 : wordClash ts = false) (h4 : endOk ts = true) : postPasses (ts.flatMap rawOf) = ts := by
   unfold postPasses
